@@ -19,7 +19,9 @@ package main
 
 import (
 	"fmt"
+	"maps"
 	"os"
+	"slices"
 	"sort"
 	"strconv"
 	"strings"
@@ -223,7 +225,7 @@ func expectedRefs(e excellent.Expression, from, to string, bound bool, sawBound 
 	var out []string
 	if ref, ok := e.(*excellent.ContextReference); ok {
 		name := strings.ToLower(ref.Name)
-		if strings.EqualFold(ref.Name, from) {
+		if strings.ToLower(ref.Name) == strings.ToLower(from) {
 			if bound {
 				*sawBound = true
 			} else {
@@ -234,7 +236,7 @@ func expectedRefs(e excellent.Expression, from, to string, bound bool, sawBound 
 	}
 	if fn, ok := e.(*excellent.AnonFunction); ok {
 		for _, a := range fn.Args {
-			if strings.EqualFold(a, from) {
+			if strings.ToLower(a) == strings.ToLower(from) {
 				bound = true
 			}
 		}
@@ -255,7 +257,7 @@ func rootType(e excellent.Expression) string {
 var nameSafe = []string{"foo", "bar", "contact", "x", "Foo", "FOO", "bAr", "_a", "x1", "é", "Éa", "名前", "ünï", "K", "truex", "nullable", "t"}
 var funcNames = []string{"upper", "LOWER", "Title", "abs", "max", "min", "if", "and", "or", "text", "number", "array", "object", "join", "split",
 	"default", "count", "text_length", "round", "mean", "sum", "reverse", "concat", "is_error", "word_count", "clean", "foreach", "filter", "boolean", "char", "code"}
-var ctxKeys = []string{"foo", "bar", "contact", "x", "_a", "x1", "é", "éa", "名前", "ünï", "t", "k", "webhook"}
+var ctxKeys = []string{"foo", "bar", "contact", "x", "_a", "x1", "é", "éa", "名前", "ünï", "t", "k", "webhook", "results", "id"}
 
 type genCfg struct {
 	rareBad bool // allow the shapes of the known findings (numeric lookup after numeric lookup, value ending in a backslash next to another literal, Cherokee names)
@@ -396,6 +398,9 @@ func genExpr(r *hx.Rand, d int, cfg genCfg) string {
 	if r.Intn(25) == 0 {
 		return genCaptureShape(r)
 	}
+	if r.Intn(25) == 0 {
+		return genTargetCapture(r)
+	}
 	if r.Intn(40) == 0 {
 		return genRescaledPower(r)
 	}
@@ -494,8 +499,118 @@ func genLambdaCall(r *hx.Rand, d int, cfg genCfg) string {
 	}
 }
 
+// listed templates for the rename oracle (hunt findings C11/1, C11/2, C11/3 and their neighbours)
+type fixedRename struct{ tpl, from, to string }
+
+var fixedRenames = []fixedRename{
+	{"@(foreach(array(1, 2), (bar) => foo & bar))", "foo", "bar"},
+	{"@(foreach(array(1, 2), (Bar) => foo.name & BAR) & foo)", "foo", "bar"},
+	{"@(foreach(array(1), (x) => foreach(array(2), (y) => foo & x & y)))", "foo", "x"},
+	{"@(foreach(array(1, 2), (bar_, bar) => foo & bar & bar_))", "foo", "bar"},
+	{"hi @(re\u017fults) and @(results)", "results", "zz9"},
+	{"@(foreach(array(1, 2), (re\u017fults) => results & re\u017fults))", "results", "zz9"},
+	{"@(foreach(array(1, 2), (\u212a) => k & \u212a)) @k", "k", "zz9"},
+	{"@(\u0130d) and @(id) @(foreach(array(1), (\u0130d) => id))", "id", "zz9"},
+	{"@(foo.2) and @foo.2", "foo", "zz8.1"},
+	{"@foo.0.name @(foo.10 + foo .3)", "foo", "zz8.1"},
+	{"@(foreach(array(1, 2), (zz8) => foo & zz8))", "foo", "zz8.json"},
+}
+
 // the names the rename oracle renames
-var renameNames = []string{"foo", "bar", "contact", "x", "item", "webhook"}
+var renameNames = []string{"foo", "bar", "contact", "x", "item", "webhook", "results", "id", "k"}
+
+// spellings of a name which the evaluator takes for the same name (strings.ToLower) or which only simple case folding
+// (strings.EqualFold) takes for the same: long s (folds to s, lower-cases to itself), Kelvin sign (lower-cases to k),
+// capital I with dot (lower-cases to i, folds to nothing else)
+func oddSpelling(r *hx.Rand, v string) string {
+	switch r.Intn(4) {
+	case 0:
+		if strings.Contains(v, "s") {
+			return strings.Replace(v, "s", "\u017f", 1)
+		}
+	case 1:
+		if strings.Contains(v, "k") {
+			return strings.Replace(v, "k", "\u212a", 1)
+		}
+	case 2:
+		if strings.Contains(v, "i") {
+			return strings.Replace(v, "i", "\u0130", 1)
+		}
+	}
+	return v
+}
+
+// a FREE mention of one name inside an anonymous function whose parameter has ANOTHER of the renamed names: renaming
+// the first to the second must not let the parameter capture it (hunt finding C11/1), and which names are the same
+// is decided by lower case as in evaluation (hunt finding C11/2)
+func genTargetCapture(r *hx.Rand) string {
+	v := hx.Pick(r, renameNames)
+	p := hx.Pick(r, renameNames)
+	for p == v {
+		p = hx.Pick(r, renameNames)
+	}
+	if r.Intn(3) == 0 {
+		v = oddSpelling(r, v)
+	}
+	if r.Intn(3) == 0 {
+		p = oddSpelling(r, p)
+	}
+	if r.Intn(4) == 0 {
+		p = strings.ToUpper(p[:1]) + p[1:]
+	}
+	switch r.Intn(6) {
+	case 0:
+		return "foreach(array(1, 2), (" + p + ") => " + v + " & " + p + ")"
+	case 1:
+		return "foreach(array(1, 2), (" + p + ") => " + p + " & " + v + ".name) & " + v
+	case 2:
+		// nested: the parameter of the outer function would capture
+		return "foreach(array(1, 2), (" + p + ") => foreach(array(3), (y) => " + v + " & y & " + p + "))"
+	case 3:
+		// two functions with that parameter, one of which mentions the name
+		return "foreach(array(1), (" + p + ") => " + p + ") & foreach(array(2), (" + p + ") => upper(" + v + ") & " + p + ")"
+	case 4:
+		// the parameter shadows the name itself: nothing to rename inside
+		return "foreach(array(1, 2), (" + v + ", " + p + ") => " + v + " & " + p + ") & " + v
+	default:
+		return "filter(array(1, 2, 3), (" + p + "_, " + p + ") => " + v + " = " + p + " + " + p + "_)"
+	}
+}
+
+// the binding-aware view of the references of an expression, in source order: a reference that an enclosing
+// anonymous function binds (innermost first; names are the same when their lower case is the same, as in evaluation)
+// is written #depth.index, a free one is written as what free() makes of its lower-cased name
+func refShape(e excellent.Expression, env [][]string, free func(string) []string) []string {
+	if ref, ok := e.(*excellent.ContextReference); ok {
+		name := strings.ToLower(ref.Name)
+		for d := len(env) - 1; d >= 0; d-- {
+			for i := len(env[d]) - 1; i >= 0; i-- {
+				if strings.ToLower(env[d][i]) == name {
+					return []string{fmt.Sprintf("#%d.%d", len(env)-1-d, i)}
+				}
+			}
+		}
+		return free(name)
+	}
+	if fn, ok := e.(*excellent.AnonFunction); ok {
+		inner := append(append([][]string{}, env...), fn.Args)
+		return refShape(fn.Body, inner, free)
+	}
+	var out []string
+	for _, c := range children(e) {
+		out = append(out, refShape(c, env, free)...)
+	}
+	return out
+}
+
+// the lower-cased names a replacement text refers to (webhook for webhook.json); nil when it is not an expression
+func targetRefs(to string) []string {
+	p, err := excellent.Parse(to, nil)
+	if err != nil {
+		return nil
+	}
+	return refShape(p, nil, func(n string) []string { return []string{n} })
+}
 
 // free AND bound mentions of one name in ONE expression: the name is a context reference outside and the parameter of
 // an anonymous function inside — same spelling, different case, nested functions, the free mention before and after
@@ -803,13 +918,13 @@ func main() {
 					case *excellent.TextLiteral:
 						vals.WriteString(n.Value.Native())
 					case *excellent.ContextReference:
-						if mode == 2 && strings.EqualFold(n.Name, from) && !seen[n.Name] {
+						if mode == 2 && strings.ToLower(n.Name) == strings.ToLower(from) && !seen[n.Name] {
 							seen[n.Name] = true
 							fold = append(fold, n.Name)
 						}
 					case *excellent.AnonFunction:
 						for _, a := range n.Args {
-							if mode == 2 && strings.EqualFold(a, from) && !seen[a] {
+							if mode == 2 && strings.ToLower(a) == strings.ToLower(from) && !seen[a] {
 								seen[a] = true
 								fold = append(fold, a)
 							}
@@ -985,11 +1100,17 @@ func main() {
 	idChanged := func(excellent.Expression) bool { return true }
 	idUnchanged := func(excellent.Expression) bool { return false }
 	sort.Strings(ctxKeys)
-	for i := 0; i < nTpl && len(good) > 0; i++ {
+	for i := 0; i < nTpl+len(fixedRenames) && len(good) > 0; i++ {
 		var sb strings.Builder
 		var used []parsed
-		sb.WriteString(hx.Pick(rt, bodies))
-		for n := rt.Range(1, 3); n > 0; n-- {
+		var fixed *fixedRename
+		if i < len(fixedRenames) {
+			fixed = &fixedRenames[i]
+			sb.WriteString(fixed.tpl)
+		} else {
+			sb.WriteString(hx.Pick(rt, bodies))
+		}
+		for n := rt.Range(1, 3); n > 0 && fixed == nil; n-- {
 			if strings.HasSuffix(sb.String(), "@") && rt.Intn(8) != 0 {
 				sb.WriteString(" ") // "@@(" would be an escaped '@' followed by "("
 			}
@@ -1021,7 +1142,9 @@ func main() {
 				}
 				return nil
 			})
-			if len(exprs) != len(used) {
+			if fixed != nil {
+				// a listed template: taken as it is
+			} else if len(exprs) != len(used) {
 				cut = false
 			} else {
 				for j := range exprs {
@@ -1081,37 +1204,220 @@ func main() {
 		}
 
 		// R3
-		from := hx.Pick(rt, renameNames)
-		var boundCands []string
-		for _, g := range used {
-			for _, a := range g.ti.lambdaArgs {
-				for _, n := range renameNames {
-					if strings.EqualFold(a, n) {
-						boundCands = append(boundCands, n)
-					}
+		// the parsed expressions of the template and what they mention
+		var exprs []excellent.Expression
+		allParse := true
+		excellent.VisitTemplate(tpl, ctxKeys, false, func(tt excellent.XTokenType, tok string) error {
+			if tt == excellent.BODY {
+				return nil
+			}
+			if p, err := excellent.Parse(tok, nil); err == nil {
+				exprs = append(exprs, p)
+			} else {
+				allParse = false
+			}
+			return nil
+		})
+		var lambdaArgs, freeNames []string
+		for _, p := range exprs {
+			p.Visit(func(e excellent.Expression) {
+				if fn, is := e.(*excellent.AnonFunction); is {
+					lambdaArgs = append(lambdaArgs, fn.Args...)
 				}
+			})
+			for _, n := range refShape(p, nil, func(n string) []string { return []string{n} }) {
+				if !strings.HasPrefix(n, "#") {
+					freeNames = append(freeNames, n)
+				}
+			}
+		}
+		isFree := func(n string) bool { return slices.Contains(freeNames, strings.ToLower(n)) }
+
+		from := hx.Pick(rt, renameNames)
+		var boundCands, freeCands []string
+		for _, n := range renameNames {
+			for _, a := range lambdaArgs {
+				if strings.EqualFold(a, n) || strings.ToLower(a) == n {
+					boundCands = append(boundCands, n)
+				}
+			}
+			if isFree(n) {
+				freeCands = append(freeCands, n)
 			}
 		}
 		if len(boundCands) > 0 && rt.Intn(4) != 0 {
 			from = hx.Pick(rt, boundCands)
+		} else if len(freeCands) > 0 && rt.Intn(3) != 0 {
+			from = hx.Pick(rt, freeCands)
 		}
+		// the new name: fresh, or (hunt finding C11/1) the name of a parameter of an anonymous function of the template
+		// - allowed as long as the template does not mention that name as a context reference already
 		to := "zz9"
-		toInUse := false
-		for _, g := range used {
-			for _, a := range g.ti.lambdaArgs {
-				if strings.EqualFold(a, to) {
-					toInUse = true
-				}
-			}
-			for _, n := range g.ti.names {
-				if strings.EqualFold(n, to) {
-					toInUse = true
+		if len(lambdaArgs) > 0 && rt.Intn(2) == 0 {
+			if cand := strings.ToLower(hx.Pick(rt, lambdaArgs)); cand != strings.ToLower(from) && !isFree(cand) {
+				if _, err := excellent.Parse(cand, nil); err == nil {
+					to = cand
 				}
 			}
 		}
-		res.OracleChecks++
-		out2, err2 := refactor.Template(tpl, ctxKeys, refactor.ContextRefRename(from, to))
-		addRef(tpl, ctxKeys, 2, from, to, out2, err2 != nil)
+		if fixed != nil {
+			from, to = fixed.from, fixed.to
+		}
+		renameOracle := func(from, to string, moved func(ctx map[string]types.XValue) map[string]types.XValue, pathClass string) {
+			res.OracleChecks++
+			out2, err2 := refactor.Template(tpl, ctxKeys, refactor.ContextRefRename(from, to))
+			addRef(tpl, ctxKeys, 2, from, to, out2, err2 != nil)
+			if err2 != nil {
+				res.Dist("template:rename-error")
+				return
+			}
+			toRefs := targetRefs(to)
+			if toRefs == nil || !allParse {
+				return
+			}
+			lfrom := strings.ToLower(from)
+			// which names the rename takes for `from` must be decided like evaluation decides it (lower case)
+			foldDiffers, sawBound, toIsParam := false, false, false
+			for _, p := range exprs {
+				p.Visit(func(e excellent.Expression) {
+					switch n := e.(type) {
+					case *excellent.ContextReference:
+						if strings.EqualFold(n.Name, from) != (strings.ToLower(n.Name) == lfrom) {
+							foldDiffers = true
+						}
+					case *excellent.AnonFunction:
+						for _, a := range n.Args {
+							if strings.EqualFold(a, from) != (strings.ToLower(a) == lfrom) {
+								foldDiffers = true
+							}
+							if strings.ToLower(a) == lfrom {
+								sawBound = true
+							}
+							if slices.Contains(toRefs, strings.ToLower(a)) {
+								toIsParam = true
+							}
+						}
+					}
+				})
+			}
+			class := func(c string) string {
+				switch {
+				case pathClass != "":
+					return pathClass
+				case foldDiffers:
+					return "rename:name-matched-by-case-folding-not-lower-case"
+				case toIsParam:
+					return "rename:renamed-reference-captured-by-lambda-parameter"
+				case sawBound:
+					return "rename:lambda-parameter-captured"
+				}
+				return c
+			}
+			// exactly the free context references named `from` changed, and they are free afterwards as well: compare
+			// the binding-aware reference lists with what the statement prescribes
+			var want, got []string
+			for _, p := range exprs {
+				want = append(want, refShape(p, nil, func(n string) []string {
+					if n == lfrom {
+						return toRefs
+					}
+					return []string{n}
+				})...)
+			}
+			nOut, outParse := 0, true
+			excellent.VisitTemplate(out2, append(append([]string{}, toRefs...), ctxKeys...), false, func(tt excellent.XTokenType, tok string) error {
+				if tt == excellent.BODY {
+					return nil
+				}
+				nOut++
+				if p, err := excellent.Parse(tok, nil); err == nil {
+					got = append(got, refShape(p, nil, func(n string) []string { return []string{n} })...)
+				} else {
+					outParse = false
+				}
+				return nil
+			})
+			if !outParse || nOut != len(exprs) {
+				res.Fail(class("rename:output-not-read-back"), map[string]any{"template": tpl, "rewritten": out2, "from": from, "to": to},
+					fmt.Sprintf("every expression of %q is accepted by the parser, after renaming %s to %s the template is %q, which is not read back as %d accepted expressions", tpl, from, to, out2, len(exprs)))
+				return
+			}
+			if strings.Join(want, "\x00") != strings.Join(got, "\x00") {
+				cls := "rename:references-not-exactly-renamed"
+				if len(want) == len(got) {
+					for j := range want {
+						if want[j] != got[j] {
+							if slices.Contains(toRefs, want[j]) && got[j] == lfrom {
+								cls = "rename:free-reference-not-renamed"
+							} else if slices.Contains(toRefs, want[j]) && strings.HasPrefix(got[j], "#") {
+								cls = "rename:renamed-reference-captured-by-lambda-parameter"
+							} else if strings.HasPrefix(want[j], "#") && slices.Contains(toRefs, got[j]) {
+								cls = "rename:lambda-parameter-captured"
+							}
+							break
+						}
+					}
+				}
+				if cls == "rename:references-not-exactly-renamed" || foldDiffers || pathClass != "" {
+					cls = class(cls)
+				}
+				res.Fail(cls, map[string]any{"template": tpl, "rewritten": out2, "from": from, "to": to},
+					fmt.Sprintf("renaming %s to %s in %q gives %q: references (bound ones as #depth.index) are %v, the statement prescribes %v", from, to, tpl, out2, got, want))
+				return
+			}
+			for _, n := range toRefs {
+				if isFree(n) && n != lfrom {
+					// the template already refers to the new name: the caller's business
+					res.Dist("template:rename-eval-skipped(to-in-use)")
+					return
+				}
+			}
+			for k := 0; k < 3; k++ {
+				ctx := randContext(rt, true)
+				ctx2 := moved(ctx)
+				a, ae, ap := templateReal(tpl, ctx)
+				b, be, bp := templateReal(out2, ctx2)
+				if ap != "" || bp != "" {
+					continue
+				}
+				if a != b || ae != be {
+					res.Fail(class("rename:value-changed"), map[string]any{"template": tpl, "rewritten": out2, "from": from, "to": to, "context": types.NewXObject(ctx).Describe()},
+						fmt.Sprintf("Template(%q) = %q err=%v; renamed %q in the renamed context = %q err=%v", tpl, a, ae, out2, b, be))
+					break
+				}
+			}
+		}
+		// the context in which the renamed template is evaluated: what `from` held is found where `to` points
+		movedFor := func(from, to string) func(ctx map[string]types.XValue) map[string]types.XValue {
+			return func(ctx map[string]types.XValue) map[string]types.XValue {
+				ctx2 := maps.Clone(ctx)
+				delete(ctx2, from)
+				v, has := ctx[from]
+				if !has {
+					return ctx2
+				}
+				switch {
+				case strings.HasSuffix(to, ".1"):
+					ctx2[strings.TrimSuffix(to, ".1")] = types.NewXArray(types.NewXText("pad"), v)
+				case strings.HasSuffix(to, ".json"):
+					ctx2[strings.TrimSuffix(to, ".json")] = types.NewXObject(map[string]types.XValue{"json": v})
+				default:
+					ctx2[to] = v
+				}
+				return ctx2
+			}
+		}
+		pathClassFor := func(to string) string {
+			if strings.HasSuffix(to, ".1") {
+				return "rename:path-ending-in-number-not-read-back"
+			}
+			return ""
+		}
+		renameOracle(from, to, movedFor(from, to), pathClassFor(to))
+		if fixed == nil && rt.Intn(4) == 0 {
+			// a replacement that is a path ending in a number (hunt finding C11/3): the value moves to index 1 of an array
+			renameOracle(from, "zz8.1", movedFor(from, "zz8.1"), pathClassFor("zz8.1"))
+		}
 		if rt.Intn(4) == 0 {
 			// the shapes of the migrations: a nil / one-element allowed list, a dotted replacement
 			tops2 := hx.Pick(rt, [][]string{nil, {"foo"}, {"webhook", "foo"}})
@@ -1143,90 +1449,6 @@ func main() {
 						break
 					}
 				}
-			}
-		}
-		if err2 != nil {
-			res.Dist("template:rename-error")
-			continue
-		}
-		// exactly the context references named `from` changed: compare the reference lists token by token with
-		// what the statement prescribes
-		sawBound := false
-		var want, got []string
-		okRefs := true
-		excellent.VisitTemplate(tpl, ctxKeys, false, func(tt excellent.XTokenType, tok string) error {
-			if tt == excellent.BODY {
-				return nil
-			}
-			if p, err := excellent.Parse(tok, nil); err == nil {
-				want = append(want, expectedRefs(p, from, to, false, &sawBound)...)
-			} else {
-				okRefs = false
-			}
-			return nil
-		})
-		excellent.VisitTemplate(out2, append([]string{to}, ctxKeys...), false, func(tt excellent.XTokenType, tok string) error {
-			if tt == excellent.BODY {
-				return nil
-			}
-			if p, err := excellent.Parse(tok, nil); err == nil {
-				p.Visit(func(e excellent.Expression) {
-					if ref, is := e.(*excellent.ContextReference); is {
-						got = append(got, strings.ToLower(ref.Name))
-					}
-				})
-			} else {
-				okRefs = false
-			}
-			return nil
-		})
-		renameClass := func(c string) string {
-			if sawBound {
-				return "rename:lambda-parameter-captured"
-			}
-			return c
-		}
-		if okRefs && strings.Join(want, "\x00") != strings.Join(got, "\x00") {
-			cls := renameClass("rename:references-not-exactly-renamed")
-			if len(want) == len(got) {
-				for j := range want {
-					if want[j] != got[j] {
-						if want[j] == strings.ToLower(to) {
-							cls = "rename:free-reference-not-renamed"
-						} else if got[j] == strings.ToLower(to) {
-							cls = "rename:lambda-parameter-captured"
-						}
-						break
-					}
-				}
-			}
-			res.Fail(cls, map[string]any{"template": tpl, "rewritten": out2, "from": from, "to": to},
-				fmt.Sprintf("references after the rename are %v, the statement prescribes %v", got, want))
-			continue
-		}
-		if toInUse {
-			res.Dist("template:rename-eval-skipped(to-in-use)")
-			continue
-		}
-		for k := 0; k < 3; k++ {
-			ctx := randContext(rt, true)
-			ctx2 := map[string]types.XValue{}
-			for kk, v := range ctx {
-				ctx2[kk] = v
-			}
-			if v, has := ctx[from]; has {
-				ctx2[to] = v
-			}
-			delete(ctx2, from)
-			a, ae, ap := templateReal(tpl, ctx)
-			b, be, bp := templateReal(out2, ctx2)
-			if ap != "" || bp != "" {
-				continue
-			}
-			if a != b || ae != be {
-				res.Fail(renameClass("rename:value-changed"), map[string]any{"template": tpl, "rewritten": out2, "from": from, "to": to, "context": types.NewXObject(ctx).Describe()},
-					fmt.Sprintf("Template(%q) = %q err=%v; renamed %q in the renamed context = %q err=%v", tpl, a, ae, out2, b, be))
-				break
 			}
 		}
 	}
